@@ -15,7 +15,7 @@ for f in ("patch.diff", "demo.rs", "demo.md", "notes.md"):
     if os.path.exists(f"{src}/{f}"):
         shutil.copy(f"{src}/{f}", f"{dst}/{f}")
 files = [l[6:].strip() for l in open(f"{dst}/patch.diff") if l.startswith("+++ b/")]
-base = subprocess.run(["git", "-C", "/repo", "rev-parse", "--short", "HEAD"], capture_output=True, text=True).stdout.strip()
+base = os.environ.get("SEED_BASE") or subprocess.run(["git", "-C", "/repo", "rev-parse", "--short", "HEAD"], capture_output=True, text=True).stdout.strip()
 meta_path = f"{dst}/meta.json"
 old = json.load(open(meta_path)) if os.path.exists(meta_path) else {}
 meta = {
@@ -37,7 +37,8 @@ meta = {
         "demo_with_change": "fails",
         "demo_without_change": "passes",
     },
-    "checks_to_run": [prop] + extra,
+    "checks_to_run": [prop] + [e for e in extra if not e.startswith("note:")],
+    **({"not_caught_because": " ".join(e[5:] for e in extra if e.startswith("note:"))} if any(e.startswith("note:") for e in extra) else {}),
     "caught_by": old.get("caught_by", []),
 }
 json.dump(meta, open(meta_path, "w"), indent=1)
